@@ -251,6 +251,75 @@ fn crafted() -> Vec<(String, Vec<KEv>)> {
         h.push(t(50));
         v.push((cfg, h));
     }
+    // [t7:chv2-wide] chords v2 with many participants: the parser's bound on the number of
+    // participating keys and the 16-slot lists of the run-time (presses, accumulated presses,
+    // remaining_keys_to_release) have to agree. 15 / 16 / 17 / 20 / 32 participants, both release
+    // behaviours, all participants pressed inside the timeout (one per tick, and as a burst without
+    // a tick), held past the timeout, then released in press order or in reverse
+    {
+        let names = [
+            "a", "b", "c", "d", "e", "f", "g", "h", "i", "j", "k", "l", "m", "n", "o", "p", "q", "r", "s", "t", "u", "v", "w", "x", "y", "z",
+            "1", "2", "3", "4", "5", "6",
+        ];
+        for n in [15usize, 16, 17, 20, 32] {
+            for rel in ["all-released", "first-release"] {
+                let ks = &names[..n];
+                let cfg = format!(
+                    "(defcfg concurrent-tap-hold yes)\n(defsrc {0})\n(deflayer l0 {0})\n(defchordsv2 ({0}) 7 500 {rel} ())\n",
+                    ks.join(" ")
+                );
+                for burst in [false, true] {
+                    for rev in [false, true] {
+                        let mut h = vec![];
+                        for k in ks {
+                            h.push(p(k));
+                            if !burst {
+                                h.push(t(1));
+                            }
+                        }
+                        h.push(t(600));
+                        let mut order: Vec<&str> = ks.to_vec();
+                        if rev {
+                            order.reverse();
+                        }
+                        for k in order {
+                            h.push(rl(k));
+                            h.push(t(1));
+                        }
+                        h.push(t(300));
+                        v.push((cfg.clone(), h));
+                    }
+                }
+            }
+        }
+    }
+    // [t7:u16-delay] the time a queued press has already waited (`Queued::since`, saturating) becomes the
+    // `delay` of the waiting state its action opens, and that state counts its own `ticks` on top:
+    // the sum handed on by waiting_into_hold / _tap / _timeout and decompose_chord_into_action_queue
+    // must not leave u16. Two waiting actions in a row with timeouts at the top of the admitted
+    // range, every tap-hold variant and a chord group, the second key held to its deadline, tapped,
+    // or interrupted, also under concurrent-tap-hold (extra_waiting) and quick tap-hold timeouts
+    for (t1, t2) in [(40000u32, 40000u32), (65535, 1), (65535, 65535)] {
+        for second in [
+            format!("(tap-hold 0 {t2} b lsft)"), format!("(tap-hold-press 0 {t2} b lsft)"), format!("(tap-hold-release 0 {t2} b lsft)"),
+            format!("(tap-hold-press-timeout 0 {t2} b lsft z)"), format!("(tap-hold-release-timeout 0 {t2} b lsft z)"),
+            format!("(tap-hold-release-keys 0 {t2} b lsft (c))"), format!("(tap-hold-except-keys 0 {t2} b lsft (c))"),
+            "(chord big b)".to_string(), format!("(multi x (tap-hold 0 {t2} b lsft))"),
+        ] {
+            for opts in ["", "concurrent-tap-hold yes"] {
+                let third = if second.starts_with("(chord") { "(chord big c)" } else { "c" };
+                let cfg = format!(
+                    "(defcfg process-unmapped-keys yes {opts})\n(defchords big {t2} (b) x (c) y (b c) z)\n(defsrc a b c)\n(deflayer l0 (tap-hold 0 {t1} a lctl) {second} {third})\n"
+                );
+                let cfg = if second.starts_with("(chord") { cfg } else { cfg.replace(&format!("(defchords big {t2} (b) x (c) y (b c) z)\n"), "") };
+                // held to both deadlines
+                v.push((cfg.clone(), vec![p("a"), p("b"), t(t1 + 1), t(t2 + 1), rl("b"), rl("a"), t(5)]));
+                // second key tapped / interrupted after the first deadline
+                v.push((cfg.clone(), vec![p("a"), p("b"), t(t1 + 1), t(t2 / 2 + 1), rl("b"), t(3), rl("a"), t(5)]));
+                v.push((cfg.clone(), vec![p("a"), p("b"), t(t1 + 1), t(t2 / 2 + 1), p("c"), t(2), rl("c"), t(t2), rl("b"), rl("a"), t(5)]));
+            }
+        }
+    }
     // every key code the event loop can hand to `handle_input_event`, once. The loop forwards an
     // event untouched unless its code is in MAPPED_KEYS, and a mapped code is always below
     // KEYS_IN_ROW = 767 (process-unmapped-keys maps 0..KEYS_IN_ROW, defsrc/deflayermap/deflocalkeys
